@@ -83,6 +83,9 @@ def main(argv):
         rep.indet('anchor missing: %s' % e)
     except TooManyPaths as e:
         rep.indet('path explosion in %s' % e)
+    except Exception as e:      # an engine left its recognised fragment: fail closed, never raise an alarm
+        tb = traceback.format_exc().strip().split('\n')
+        rep.indet('internal: %s: %s (%s)' % (type(e).__name__, e, tb[-3].strip() if len(tb) >= 3 else ''))
     cmd = './check %s --tier %s' % (pid, tier)
     rc = finish(rep, t0, mod.LEVEL, mod.EXPLANATION, mod.TRUSTED, cmd, seed)
     if replay:
